@@ -108,7 +108,7 @@ mod verif_c20_group {
     /// One merge step on a CONCRETE key layout (rule 1: which groups the candidate
     /// touches is structure): group i holds the keys {10i, 10i+1}; the candidate
     /// holds its own fresh key 99 plus key 10i+1 of every group i with hit[i].
-    /// Confidences are symbolic in [0,1].
+    /// The candidate's confidence is symbolic in [0,1]; group confidences are concrete.
     fn step(hit: &[bool]) {
         let n = hit.len();
         let mut before: G = Vec::new();
@@ -119,7 +119,10 @@ mod verif_c20_group {
             let mut ks = Vec::new();
             ks.push(10 * i as u8);
             ks.push(10 * i as u8 + 1);
-            before.push((ks, conf()));
+            // group confidences: concrete and distinct (0.2, 0.3, 0.4, 0.5); the
+            // candidate's confidence is the symbolic quantity (any f64 in [0,1]) — a
+            // vector of symbolic floats moved by Vec::remove/extend did not finish
+            before.push((ks, 0.2 + 0.1 * i as f64));
             if hit[i] {
                 keys.push(10 * i as u8 + 1);
             }
